@@ -141,7 +141,7 @@ def fault_case(ctx, case):
         ctx.count('runs')
         ctx.count('cli_runs')
         try:
-            st, so, se = trees.run_cli(asm, [main, '-i', inc, '-o', outp] + (['-c'] if comp else []), base)
+            st, so, se = trees.run_cli(asm, [main, '-i', inc, '-o', outp] + (['-c'] if comp else []) + (['-v'] if case.get('verbose') else []), base)
         except BaseException as e:
             st, se = 'raw:' + type(e).__name__, repr(e)
         ok = st == 1 and ('line %d' % want_line) in se and any(os.path.basename(path) in l and ('line %d' % want_line) in l for l in se.splitlines()) \
@@ -153,6 +153,39 @@ def fault_case(ctx, case):
     ctx.seen('classes', case['klass'])
 
 
+def text_case(ctx, case):
+    """the single-file program handed to assemble() as source TEXT, with LF / CRLF / CR line ends, with and without a final line end: the error carries the 1-based line of the fault"""
+    asm = kernel.boot()
+    pre, post = body('main.asm', 1)
+    lines = pre + post
+    lines[case['k']:case['k']] = case['fault'].split('\n')
+    lines += TAIL
+    nl = {'lf': '\n', 'crlf': '\r\n', 'cr': '\r'}[case['nl']]
+    src = nl.join(lines) + (nl if case['final'] else '')
+    want_line = case['k'] + 1
+    ctx.count('runs')
+    try:
+        asm.assemble(src, compress=case['compress'])
+        got = ('accepted', None)
+    except asm.AssemblerError as e:
+        got = ('AssemblerError', getattr(getattr(e, 'line', None), 'number', None))
+    except BaseException as e:
+        got = (type(e).__name__, None)
+    if got[0] == 'accepted' and case['fault'] in MAY_ACCEPT:
+        return
+    if got != ('AssemblerError', want_line):
+        ctx.violation('%s:%s:%s:text-%s:%s' % (PROP, case['klass'], case['fault'].split()[0], case['nl'], 'wrong-line' if got[0] == 'AssemblerError' else got[0]),
+                      'source text with %s line ends, faulty line %r at line %d: %s' % (case['nl'].upper(), case['fault'], want_line, got), 'text_case', case,
+                      expected=['AssemblerError', want_line], observed=list(got))
+    ctx.seen('classes', case['klass'])
+
+
+def text_task(ctx, cases):
+    for c in cases:
+        text_case(ctx, c)
+        ctx.count('cases')
+
+
 def fault_task(ctx, cases):
     for c in cases:
         fault_case(ctx, c)
@@ -160,7 +193,7 @@ def fault_task(ctx, cases):
     ctx.sample({k: v for k, v in cases[0].items()}, cap=1)
 
 
-DRIVERS = {'fault_case': fault_case}
+DRIVERS = {'fault_case': fault_case, 'text_case': text_case}
 
 
 def positions(shape):
@@ -183,8 +216,19 @@ def run(tier, seed, t0):
                     for k in ks:
                         for comp in (False, True):
                             i += 1
-                            cases.append(dict(shape=shape, file=fname, k=k, klass=klass, fault=fault, compress=comp, cli=(i % 5 == 0)))
+                            cases.append(dict(shape=shape, file=fname, k=k, klass=klass, fault=fault, compress=comp, cli=(i % 5 == 0), verbose=(i % 10 == 0)))
     m = kernel.explore(fault_task, list(kernel.chunks(cases, 60)))
+    # the same faults in a program given as source text, for every kind of line end
+    tcases = []
+    nlines = len(PRE) + len(POST)
+    for klass, faults in FAULTS.items():
+        if klass.startswith('missing-include'):
+            continue
+        for fi, fault in enumerate(faults):
+            for k in sorted({0, nlines, (fi * 3) % (nlines + 1)}) if tier == 'quick' else range(nlines + 1):
+                for nl in ('lf', 'crlf', 'cr'):
+                    tcases.append(dict(k=k, klass=klass, fault=fault, nl=nl, final=bool((fi + k) % 2), compress=bool(fi % 2)))
+    m = kernel.explore(text_task, list(kernel.chunks(tcases, 100)), merged=m)
     n = m.n
     cov = dict(states=n['cases'], transitions=n['runs'], traces_validated_against_impl=n['runs'], evaluations=n['runs'], distinct_nontrivial=n['cases'],
                rule='one state per (include tree, file, insertion position, fault line, mode); each is one execution of assemble() (and of cli_main for every 5th); '
